@@ -445,12 +445,24 @@ func c16PrefixFamily(r *rand.Rand, n int) [][]byte {
 	return ks
 }
 
+// el0id re-uses the first id of a replaced input list (ids stay unique and dense) and gives the surplus back
+func el0id(el []c16Elem, next *int) int {
+	if len(el) == 0 {
+		*next++
+		return *next - 1
+	}
+	*next = el[0].id + 1
+	return el[0].id
+}
+
 func c16PQ(c *fw.Case) {
 	k := c.R.Intn(9)
 	universe := gen.AscendingKeys(c.R, 4+c.R.Intn(60), gen.Pick(c.R, 0, 1, 3, 4))
 	if c.R.Intn(4) == 0 {
 		universe = c16PrefixFamily(c.R, len(universe))
 		c.Obs("key_sets_that_are_prefixes_of_one_buffer", 1)
+	} else if c.R.Intn(2) == 0 && len(universe[0]) != 0 {
+		universe = append([][]byte{{}}, universe...)
 	}
 	var iters []pq.IteratorWithContext[[]byte, int, int]
 	var inputs [][]c16Elem
@@ -476,6 +488,11 @@ func c16PQ(c *fw.Case) {
 		}
 		if n > 0 {
 			nonEmpty++
+		}
+		if c.R.Intn(4) == 0 && len(universe) > 0 && len(universe[0]) == 0 {
+			// an input that holds nothing but the empty key (the zero value of the key type as the LAST element of its input)
+			el = []c16Elem{{key: universe[0], id: el0id(el, &id)}}
+			c.Obs("pq_inputs_holding_only_the_empty_key", 1)
 		}
 		inputs = append(inputs, el)
 		// context deliberately not equal to the position in the slice
